@@ -48,7 +48,7 @@ type Term struct {
 	Val  *big.Int // for const Int/BV; Bool const uses Val 0/1
 	id   int
 	// quantifier: Op "forall"/"exists", Bound vars in Args[:len-1], body Args[last]; Pats optional
-	Pats [][]*Term
+	Pats      [][]*Term
 	reindexed bool
 }
 
@@ -420,6 +420,21 @@ func IMod(a, b *Term) *Term {
 	}
 	if yo && y.Cmp(big.NewInt(1)) == 0 {
 		return IntC(0)
+	}
+	// (u mod m) mod n == u mod n when n divides m (SMT-LIB mod is Euclidean: exact for all integers u)
+	if yo && y.Sign() > 0 && a.Op == "mod" && len(a.Args) == 2 {
+		if m, mo := iconst(a.Args[1]); mo && m.Sign() > 0 && new(big.Int).Mod(m, y).Sign() == 0 {
+			return IMod(a.Args[0], b)
+		}
+	}
+	// ite(c, u, u mod m) mod n == u mod n when n divides m (the shape of an unsigned wrap-around)
+	if yo && y.Sign() > 0 && a.Op == "ite" && len(a.Args) == 3 {
+		u, w := a.Args[1], a.Args[2]
+		if w.Op == "mod" && len(w.Args) == 2 && w.Args[0] == u {
+			if m, mo := iconst(w.Args[1]); mo && m.Sign() > 0 && new(big.Int).Mod(m, y).Sign() == 0 {
+				return IMod(u, b)
+			}
+		}
 	}
 	return mk("mod", SInt, a, b)
 }
